@@ -131,14 +131,36 @@ def check(ctx, rep):
         # spliced helpers are followed by the provenance walk)
         leaves = []
 
-        def collect(op, depth=0):
-            os_ = origins(u, op, extra_identity=INTO)
+        def collect(op, depth=0, body=None):
+            body = body or u
+            os_ = origins(body, op, extra_identity=INTO)
             for o in os_:
                 if o.kind == 'agg' and o.stmt['rv'].get('ak') == 'tuple' and depth < 4:
                     for x in o.stmt['rv']['ops']:
-                        collect(x, depth + 1)
-                else:
-                    leaves.append(o)
+                        collect(x, depth + 1, body)
+                    continue
+                # the payload picked by a closure built in this body and called here (`pick(response)` inside a spliced generic helper):
+                # what the closure returns, with its parameter standing for the argument it is called with
+                if o.kind == 'call' and body is u and depth < 4 and 'call_once' in last_seg(o.term.get('callee') or 'call_once') and len(o.term.get('args') or []) == 2:
+                    clos = [x for x in origins(u, o.term['args'][0]) if x.kind == 'agg' and x.stmt['rv'].get('ak') == 'closure']
+                    g_ = kv.by_exact(clos[0].stmt['rv']['def']) if len(clos) == 1 else None
+                    tup = o.term['args'][1]
+                    if g_ is not None and 'l' in tup:
+                        def _inner(place, d_=0):
+                            out_ = []
+                            for i_ in origins(g_, place, extra_identity=INTO):
+                                if i_.kind == 'agg' and i_.stmt['rv'].get('ak') == 'tuple' and d_ < 3:
+                                    for x_ in i_.stmt['rv']['ops']:
+                                        out_ += _inner(x_, d_ + 1)
+                                else:
+                                    out_.append(i_)
+                            return out_
+                        inner = _inner({'l': 0, 'p': list(o.suffix)})
+                        if inner and all(i_.kind == 'arg' and i_.n >= 2 for i_ in inner):
+                            for i_ in inner:
+                                collect({'l': tup['l'], 'p': list(tup.get('p') or []) + ['.%d' % (i_.n - 2)] + list(i_.suffix)}, depth + 1, u)
+                            continue
+                leaves.append(o)
         collect({'l': 0, 'p': ['as Ok', '.0']})
         comp_ok = bool(leaves)
         seen_fields = set()
